@@ -1,5 +1,6 @@
 import SE.Proofs.RegistryPipe
 import SE.Proofs.SuffixFree
+import SE.Proofs.HelpUniform
 import SE.Spec.FloatLaws
 /-
 C08 — A conflicting event is dropped alone and harms nothing else.
@@ -9,8 +10,15 @@ counters, so every other series keeps its type and value and every later event i
 if the refused one had never been sent. The last part of the file characterises *which* requests are
 refused as conflicts (`conflict_iff_spec`), proves what the (repaired) companion-name checks buy — over
 every history the statsd families never collide by suffix: `suffixFree_getOrCreate`, `suffix_free_history`,
-`suffixFree_no_statsd_collision` — and shows by a concrete run that "accepted" is still weaker than "the
-scrape stays healthy", now because of help strings only: `gather_ok_preserved_counterexample`.
+`suffixFree_no_statsd_collision` — and what the (repaired) help bookkeeping of the registry buys — all vectors
+of one metric name carry the help string of the first one: `helpUniform_getOrCreate`, `help_uniform_history`,
+`helpUniform_help_consistent`. Together: on a well-formed, suffix-free, help-uniform registry without
+pre-registered families (every registry a history reaches from the empty one is such) "accepted" does imply
+"the scrape stays healthy" — `gather_ok_preserved`, `gather_ok_preserved_step`, `gather_ok_preserved_history`.
+The unguarded claim `gather_ok_preserved_statement` (any well-formed registry that scrapes fine) is still false:
+the exporter's checks do not see the pre-registered families (`gather_ok_preserved_counterexample`, the open
+finding SE.Props.C03.preregistered_name_collision), and an arbitrary — unreachable — registry need not be
+help-uniform (`gather_ok_preserved_needs_help_uniform`).
 
 Vocabulary: see SE/Props/C07.lean. `evTarget p rx ev tags = some (c, pl)` means: the event reaches the
 registry with the request `pl = (metric type, GetArgs, update function)`; `c` are the counters after
@@ -276,13 +284,115 @@ theorem gather_ok_iff_help_consistent (r : Reg V) (hs : SuffixFree r) (hpre : r.
     r.gatherOk = (r.metrics.filter (!·.series.isEmpty)).all helpConsistent :=
   gatherOk_of_suffixFree hs hpre
 
-/-! ### The stronger reading still fails: help strings
+/-! ### What the help bookkeeping buys: one help string per family
 
-"Accepted events never make the scrape fail" is *not* what the conflict checks guarantee. The suffix
-collisions are gone (above); what remains is the help string: a family has one vector per label-name set, each
-vector keeps the help string it was created with, and nothing compares them. The metric `x` requested without
-labels and help "h", then with the label `k` and help "g": both requests are accepted, and `Gather` rejects
-the family ("has help … but should have …"). -/
+`HelpUniform r` (SE/Spec/Registry.lean): all vectors of one metric entry carry the same help string. The registry
+remembers, per metric name, the help string of the first vector it created for that name and creates every later
+vector of the name with it (`helpFor`; `Reg.firstHelp?`), whatever help the request carries — a second mapping
+rule for the same name, or a reloaded configuration, cannot introduce a second help string. It holds of the empty
+registry and is preserved by every operation that returns a registry, hence by every history; and it is exactly
+what the first check of `Gather` needs. -/
+
+/-- The empty registry (whatever is pre-registered). -/
+theorem helpUniform_empty (pre : List (Bytes × MType × Bytes)) : HelpUniform ({ metrics := [], pre := pre } : Reg V) :=
+  HelpUniform_empty pre
+
+/-- **Every `getOrCreate` that returns a registry preserves `HelpUniform`** — the hit path (no vector is
+    touched) and the creation path: an existing vector is reused as it is, a new one gets the help string of the
+    entry's first vector (which by uniformity is that of all its vectors), or the request's if it is the first. -/
+theorem helpUniform_getOrCreate (r r' : Reg V) (ty : MType) (a : GetArgs V) (now : Int) :
+    RegWF r → HelpUniform r → r.getOrCreate ty a now = .ok (.ok r') → HelpUniform r' :=
+  fun hw hh hg => HelpUniform_getOrCreate hw hh hg
+
+/-- In a help-uniform registry the help string a new vector gets is the help string of every vector of the name. -/
+theorem helpUniform_first_help (r : Reg V) (hh : HelpUniform r) (name : Bytes) (names : List Bytes) (v : VecM V) :
+    r.vec? name names = some v → r.firstHelp? name = some v.help :=
+  fun hv => firstHelp?_of_vec? hh hv
+
+/-- The value update that follows an accepted request touches no vector. -/
+theorem helpUniform_updateSeries (r : Reg V) (name : Bytes) (labels : Labels) (f : VecM V → Series V → Series V) :
+    HelpUniform r → HelpUniform (updateSeries r name labels f) :=
+  fun hh => HelpUniform_updateSeries hh name labels f
+
+/-- The TTL sweep removes series only, never a vector. -/
+theorem helpUniform_sweep (r : Reg V) (now : Int) : HelpUniform r → HelpUniform (r.sweep now) :=
+  fun hh => HelpUniform_sweep hh now
+
+theorem helpUniform_sweep_iff (r : Reg V) (now : Int) : HelpUniform (r.sweep now) ↔ HelpUniform r :=
+  HelpUniform_sweep_iff r now
+
+/-- One event, whatever `handleEvent` does with it. -/
+theorem helpUniform_handleEvent (p p' : Pipe V) (rx : Rx) (ev : Ev V) (tags : Labels) (hw : RegWF p.reg)
+    (hh : HelpUniform p.reg) (h : handleEvent p rx ev tags = some (.ok p')) : HelpUniform p'.reg :=
+  HelpUniform_handleEvent hw hh h
+
+/-- All events of one line. -/
+theorem helpUniform_handleEvents (p p' : Pipe V) (rx : Rx) (tags : Labels) (evs : List (Ev V)) (hw : RegWF p.reg)
+    (hh : HelpUniform p.reg) (h : handleEvents p rx tags evs = some (.ok p')) : HelpUniform p'.reg :=
+  (HelpUniform_handleEvents evs hw hh h).2
+
+/-- Every history (event batches, sweeps, clock changes, reloads, in any order) from a well-formed,
+    help-uniform registry. -/
+theorem help_uniform_history_from (rx : Rx) (p p' : Pipe V) (ops : List (PipeOp V)) (hw : RegWF p.reg)
+    (hh : HelpUniform p.reg) (h : runOps rx p ops = some (.ok p')) : HelpUniform p'.reg :=
+  (HelpUniform_runOps rx ops hw hh h).2
+
+/-- **After every history that starts without statsd metrics, the registry is help-uniform.** -/
+theorem help_uniform_history (rx : Rx) (p p' : Pipe V) (ops : List (PipeOp V)) :
+    p.reg.metrics = [] → runOps rx p ops = some (.ok p') → HelpUniform p'.reg :=
+  fun h0 h => (HelpUniform_runOps rx ops (wf_helpUniform_of_no_metrics h0).1 (wf_helpUniform_of_no_metrics h0).2 h).2
+
+/-- **The link to `Gather`**: in a help-uniform registry every family — live or not — has one help string; in
+    particular the first conjunct of `Reg.gatherOk` holds. -/
+theorem helpUniform_help_consistent (r : Reg V) (hh : HelpUniform r) :
+    (∀ m, m ∈ r.metrics → helpConsistent m = true) ∧
+    (r.metrics.filter (!·.series.isEmpty)).all helpConsistent = true :=
+  ⟨helpConsistent_of_helpUniform hh, live_helpConsistent_of_helpUniform hh⟩
+
+/-! ### Accepted ⇒ the scrape stays healthy — on the registries the exporter reaches -/
+
+/-- suffix-free, help-uniform, nothing pre-registered: `Gather` succeeds -/
+theorem gather_ok_of_invariants (r : Reg V) (hs : SuffixFree r) (hh : HelpUniform r) (hpre : r.pre = []) :
+    r.gatherOk = true :=
+  gatherOk_of_suffixFree_helpUniform hs hh hpre
+
+/-- **A request that the registry accepts keeps `Gather` healthy** — on a well-formed, suffix-free, help-uniform
+    registry without pre-registered families. (These hold of every registry a history reaches from the empty one:
+    `suffix_free_history`, `help_uniform_history`; the registry need not even be assumed to scrape fine — it does.) -/
+theorem gather_ok_preserved (r r' : Reg V) (ty : MType) (a : GetArgs V) (now : Int) :
+    RegWF r → SuffixFree r → HelpUniform r → r.pre = [] → r.getOrCreate ty a now = .ok (.ok r') → r'.gatherOk = true :=
+  fun hw hs hh hpre hg =>
+    gatherOk_of_suffixFree_helpUniform (SuffixFree_getOrCreate hw hs hg) (HelpUniform_getOrCreate hw hh hg)
+      (by rw [(getOrCreate_others hg).2, hpre])
+
+/-- … through a whole pipeline step: whatever `handleEvent` does with the event (apply, refuse, drop, reject) -/
+theorem gather_ok_preserved_step (p p' : Pipe V) (rx : Rx) (ev : Ev V) (tags : Labels) (hw : RegWF p.reg)
+    (hs : SuffixFree p.reg) (hh : HelpUniform p.reg) (hpre : p.reg.pre = [])
+    (h : handleEvent p rx ev tags = some (.ok p')) : p'.reg.gatherOk = true :=
+  gatherOk_of_suffixFree_helpUniform (SuffixFree_handleEvent hw hs h) (HelpUniform_handleEvent hw hh h)
+    (by rw [pre_handleEvent h, hpre])
+
+/-- … and through every history (event batches, sweeps, clock changes, reloads, in any order) -/
+theorem gather_ok_preserved_history (rx : Rx) (p p' : Pipe V) (ops : List (PipeOp V)) (hw : RegWF p.reg)
+    (hs : SuffixFree p.reg) (hh : HelpUniform p.reg) (hpre : p.reg.pre = [])
+    (h : runOps rx p ops = some (.ok p')) : p'.reg.gatherOk = true :=
+  gatherOk_of_suffixFree_helpUniform (SuffixFree_runOps rx ops hw hs h).2 (HelpUniform_runOps rx ops hw hh h).2
+    (by rw [pre_runOps rx ops h, hpre])
+
+/-! ### The unguarded reading still fails: pre-registered families, and registries no history reaches
+
+"Accepted requests never make the scrape fail" for *any* well-formed registry that scrapes fine
+(`gather_ok_preserved_statement`) is still false, for two reasons that have nothing to do with each other:
+* the conflict checks only look at the exporter's own maps, not at the families other collectors registered
+  before (`Reg.pre`): the empty registry next to a pre-registered counter `x` with another help string accepts
+  the statsd counter `x`, and `Gather` rejects the family — the smallest refutation, and a reachable one (the open
+  finding SE.Props.C03.preregistered_name_collision);
+* the statement quantifies over arbitrary registries, not over reachable ones: a registry whose metric `x` has
+  two vectors with different help strings, only one of them with a live child, is well-formed, suffix-free and
+  scrapes fine; a request for a series of the other vector is accepted and `Gather` fails. No history from the
+  empty registry produces such a registry any more (`help_uniform_history`).
+The former witness — `x` requested without labels and help "h", then with the label `k` and help "g" — is
+repaired: the second vector is created with the help "h" and `Gather` succeeds (`second_help_ignored`). -/
 
 section counterexample
 attribute [local instance] toyNumOps
@@ -332,15 +442,17 @@ def gather_ok_preserved_statement : Prop :=
   ∀ (V : Type) [NumOps V] (r r' : Reg V) (ty : MType) (a : GetArgs V) (now : Int),
     RegWF r → r.gatherOk = true → r.getOrCreate ty a now = .ok (.ok r') → r'.gatherOk = true
 
-/-- summary `x{}` with help "h" and then summary `x{k="v"}` with help "g" are both accepted (no conflict is
-    reported), the registry is healthy after the first and `Gather` fails after the second. -/
+/-- the empty registry next to a pre-registered counter `x` whose help string is "g" -/
+private def regPre : Reg Int := { metrics := [], pre := [(nameX, .counter, helpG)] }
+
+/-- **the smallest refutation**: the registry without statsd metrics next to a pre-registered counter `x` (help
+    "g") is well-formed, suffix-free, help-uniform and scrapes fine; the statsd counter `x` with help "h" is
+    accepted — `MetricConflicts` does not see the pre-registered family — and `Gather` fails afterwards. -/
 theorem gather_ok_preserved_counterexample :
-    ∃ r1 r2 : Reg Int, step {} .summary (args nameX [] helpH) = some r1 ∧
-      step r1 .summary (args nameX labelsKV helpG) = some r2 ∧
-      r1.gatherOk = true ∧ r2.gatherOk = false := by
-  refine ⟨(step {} .summary (args nameX [] helpH)).getD {},
-    (step ((step {} .summary (args nameX [] helpH)).getD {}) .summary (args nameX labelsKV helpG)).getD {}, ?_, ?_, ?_, ?_⟩
-  · exact some_getD _ (by with_unfolding_all decide)
+    ∃ r2 : Reg Int, step regPre .counter (args nameX [] helpH) = some r2 ∧
+      RegWF regPre ∧ SuffixFree regPre ∧ HelpUniform regPre ∧ regPre.gatherOk = true ∧ r2.gatherOk = false := by
+  refine ⟨(step regPre .counter (args nameX [] helpH)).getD {}, ?_, RegWF_empty _, SuffixFree_empty _,
+    HelpUniform_empty _, ?_, ?_⟩
   · exact some_getD _ (by with_unfolding_all decide)
   · with_unfolding_all decide
   · with_unfolding_all decide
@@ -348,20 +460,77 @@ theorem gather_ok_preserved_counterexample :
 /-- hence the unguarded claim is false -/
 theorem gather_ok_preserved_statement_false : ¬ gather_ok_preserved_statement := by
   intro h
-  obtain ⟨r1, r2, h1, h2, hg1, hg2⟩ := gather_ok_preserved_counterexample
+  obtain ⟨r2, h2, hw, _, _, hg1, hg2⟩ := gather_ok_preserved_counterexample
+  have := h Int regPre r2 .counter (args nameX [] helpH) 0 hw hg1 (step_spec h2)
+  rw [hg2] at this; cases this
+
+/-- a registry no history reaches: the counter `x` with a vector without labels (help "h", one live child) and a
+    vector for the label `k` (help "g", no child) -/
+private def regTwoHelps : Reg Int :=
+  { metrics := [{ name := nameX, ty := .counter,
+                  vecs := [{ names := [], help := helpH, bounds := [] }, { names := [[107]], help := helpG, bounds := [] }],
+                  series := [{ labels := [], ttl := 0, last := 0, f := 0, n := 0, bk := [] }] }] }
+
+private theorem regTwoHelps_wf : RegWF regTwoHelps := by
+  refine ⟨by simp [regTwoHelps], ?_, ?_⟩
+  · intro m hm
+    simp only [regTwoHelps, List.mem_singleton] at hm
+    subst hm; simp
+  · intro m hm s hs
+    simp only [regTwoHelps, List.mem_singleton] at hm
+    subst hm
+    simp only [List.mem_singleton] at hs
+    subst hs
+    exact ⟨{ names := [], help := helpH, bounds := [] }, by simp, rfl⟩
+
+/-- **`HelpUniform` cannot be dropped from `gather_ok_preserved`** (second, independent refutation of the unguarded
+    claim, nothing pre-registered): `regTwoHelps` is well-formed, suffix-free, not help-uniform, and scrapes fine
+    (only one of its two vectors has a child); the request for `x{k="v"}` is accepted — the vector exists and is
+    reused with its help "g" — and `Gather` fails afterwards. -/
+theorem gather_ok_preserved_needs_help_uniform :
+    ∃ r2 : Reg Int, step regTwoHelps .counter (args nameX labelsKV helpH) = some r2 ∧
+      RegWF regTwoHelps ∧ SuffixFree regTwoHelps ∧ ¬ HelpUniform regTwoHelps ∧ regTwoHelps.pre = [] ∧
+      regTwoHelps.gatherOk = true ∧ r2.gatherOk = false := by
+  refine ⟨(step regTwoHelps .counter (args nameX labelsKV helpH)).getD {}, ?_, regTwoHelps_wf, ?_, ?_, rfl, ?_, ?_⟩
+  · exact some_getD _ (by with_unfolding_all decide)
+  · unfold SuffixFree; with_unfolding_all decide
+  · intro hh
+    have := hh _ (List.mem_singleton.mpr rfl) { names := [], help := helpH, bounds := [] } (by simp)
+      { names := [[107]], help := helpG, bounds := [] } (by simp)
+    revert this
+    with_unfolding_all decide
+  · with_unfolding_all decide
+  · with_unfolding_all decide
+
+/-- **the former witness, repaired**: summary `x{}` with help "h" and then summary `x{k="v"}` with help "g" are both
+    accepted as before; the second vector is created with the help string of the first, "h", and `Gather` succeeds
+    after the first and after the second request (it used to fail after the second). -/
+theorem second_help_ignored :
+    ∃ r1 r2 : Reg Int, step {} .summary (args nameX [] helpH) = some r1 ∧
+      step r1 .summary (args nameX labelsKV helpG) = some r2 ∧
+      r1.gatherOk = true ∧ r2.gatherOk = true ∧
+      r2.metrics.map (fun m => (m.name, m.vecs.map fun v => (v.names, v.help))) =
+        [(nameX, [([], helpH), ([[107]], helpH)])] := by
+  refine ⟨(step {} .summary (args nameX [] helpH)).getD {},
+    (step ((step {} .summary (args nameX [] helpH)).getD {}) .summary (args nameX labelsKV helpG)).getD {}, ?_, ?_, ?_, ?_, ?_⟩
+  · exact some_getD _ (by with_unfolding_all decide)
+  · exact some_getD _ (by with_unfolding_all decide)
+  · with_unfolding_all decide
+  · with_unfolding_all decide
+  · with_unfolding_all decide
+
+/-- the same conclusion without evaluating the scrape: `gather_ok_preserved` applies to both requests -/
+example : ∀ r1 r2 : Reg Int, step {} .summary (args nameX [] helpH) = some r1 →
+    step r1 .summary (args nameX labelsKV helpG) = some r2 → SuffixFree r2 ∧ HelpUniform r2 ∧ r2.gatherOk = true := by
+  intro r1 r2 h1 h2
   have hs1 := step_spec h1
   have hs2 := step_spec h2
   have hw1 : RegWF r1 := RegWF_getOrCreate (RegWF_empty []) hs1
-  have := h Int r1 r2 .summary (args nameX labelsKV helpG) 0 hw1 hg1 hs2
-  rw [hg2] at this; cases this
-
-/-- the registry of that counterexample is suffix-free all the same: the failure is the help string -/
-example : ∀ r1 r2 : Reg Int, step {} .summary (args nameX [] helpH) = some r1 →
-    step r1 .summary (args nameX labelsKV helpG) = some r2 → SuffixFree r2 := by
-  intro r1 r2 h1 h2
-  have hs1 := step_spec h1
-  exact suffixFree_getOrCreate r1 r2 _ _ 0 (RegWF_getOrCreate (RegWF_empty []) hs1)
-    (suffixFree_getOrCreate _ r1 _ _ 0 (RegWF_empty []) (suffixFree_empty []) hs1) (step_spec h2)
+  have hf1 : SuffixFree r1 := suffixFree_getOrCreate _ r1 _ _ 0 (RegWF_empty []) (suffixFree_empty []) hs1
+  have hh1 : HelpUniform r1 := helpUniform_getOrCreate _ r1 _ _ 0 (RegWF_empty []) (helpUniform_empty []) hs1
+  have hp1 : r1.pre = [] := (getOrCreate_others hs1).2
+  exact ⟨suffixFree_getOrCreate r1 r2 _ _ 0 hw1 hf1 hs2, helpUniform_getOrCreate r1 r2 _ _ 0 hw1 hh1 hs2,
+    gather_ok_preserved r1 r2 _ _ 0 hw1 hf1 hh1 hp1 hs2⟩
 
 /-! The former witness — summary `x`, then summary `x_sum`: both were accepted and `Gather` failed with a
     suffix collision — is now refused, in either order. -/
